@@ -53,8 +53,10 @@ class Ctx:
             return ["default", "injective", "osmosis_token_factory"]
         return ["default"]
 
-    def model(self, config=None, registry_std=False):
+    def model(self, config=None, registry_std=None):
         config = config or self.config
+        if registry_std is None:
+            registry_std = getattr(self, "use_registry", False)
         k = (config, registry_std)
         m = self.models.get(k)
         if m is None:
@@ -119,9 +121,17 @@ def run_check(prop, tier, module=None, explanation="", extra_assumptions=()):
         for cfg in ctx.configs():
             ctx.config = cfg
             mod.run(ctx)
-        if tier == "thorough" and hasattr(mod, "run_thorough"):
+        if tier == "thorough":
+            # once more with the registry copy of white-whale-std (the copy the contracts actually link)
+            # substituted for the workspace copy; obligations with the same key are merged
+            ctx.config = "default+registry-std"
+            ctx.use_registry = True
+            _cfg = ctx.config
             ctx.config = "default"
-            mod.run_thorough(ctx)
+            mod.run(ctx)
+            ctx.use_registry = False
+            if hasattr(mod, "run_thorough"):
+                mod.run_thorough(ctx)
     except RuntimeError as e:
         sys.stderr.write("TOOL-FAILURE: %s\n" % e)
         return 2
